@@ -63,3 +63,9 @@ fi
 if [ -d "$MC/checks/c12/mem" ] && [ "$PKG" = "./checks/c12" ]; then
   ( cd "$MC" && go build -modfile="$B/plain.mod" -tags verif -o "$OUT-mem" ./checks/c12/mem ) || fail "memory-effects part build failed"
 fi
+
+# 9. C05's platform repeat-run part (plain build: its workers re-exec the binary and run the real,
+#    uninstrumented emulation / timing platforms)
+if [ -d "$MC/checks/c05/repeat" ] && [ "$PKG" = "./checks/c05" ]; then
+  ( cd "$MC" && go build -modfile="$B/plain.mod" -tags verif -o "$OUT-repeat" ./checks/c05/repeat ) || fail "platform repeat-run part build failed"
+fi
